@@ -161,6 +161,8 @@ pub struct FnState {
     pub certain: BTreeSet<String>,
     pub possible: BTreeSet<String>,
     pub pressure: bool,
+    /// key -> the last result of this key that must not have been stored (Err / rejected by cache_if)
+    pub unstored: BTreeMap<String, (Ret, &'static str)>,
 }
 
 #[derive(Clone, Debug)]
@@ -228,7 +230,7 @@ impl MacroSim {
                 weak,
                 certain: BTreeSet::new(),
                 possible: BTreeSet::new(),
-                pressure: false,
+                pressure: false, unstored: BTreeMap::new(),
             });
         }
         Ok(MacroSim { corpus, fns, version: 0 })
@@ -361,6 +363,11 @@ impl MacroSim {
             if let Some(c) = &cached_ret {
                 if *c != obs.ret {
                     info.findings.push(l2("ret-value", d.id, format!("the value stored last for {key:?}: {:?}", c), format!("{:?}", obs.ret)));
+                    if let Some((u, clause)) = st.unstored.get(&key) {
+                        if *u == obs.ret {
+                            info.findings.push(l2(clause, d.id, format!("the result {:?} of an earlier call was not to be stored; {key:?} still holds {:?}", u, c), format!("served {:?}", obs.ret)));
+                        }
+                    }
                 }
             } else {
                 // served although the model holds nothing: it must at least be a value of this function and arguments
@@ -399,6 +406,13 @@ impl MacroSim {
                 !d.is_result() || sc.ok
             };
         info.stored_expected = store_expected;
+        if obs.executed > 0 {
+            if store_expected {
+                st.unstored.remove(&key);
+            } else {
+                st.unstored.insert(key.clone(), (fresh_ret.clone(), if d.is_result() && !sc.ok { "err-cached" } else { "rejected-cached" }));
+            }
+        }
         let (tag, fp) = (ret_tag(&fresh_ret), ret_fp(&fresh_ret));
         let mem_aware = d.max_memory.is_some();
 
